@@ -583,7 +583,9 @@ pub struct RunOutcome {
 
 pub fn wall_limit(tier: &str) -> Duration {
     let env = std::env::var("JLV_WALL_S").ok().and_then(|s| s.parse::<u64>().ok());
-    Duration::from_secs(env.unwrap_or(if tier == "thorough" { 5400 } else { 900 }))
+    // a backstop only (a hanging evaluation is caught by the CPU watchdog long before): the longest check takes about
+    // 1 minute (quick) / 40 minutes (thorough) on a machine loaded four times over, so these leave an order of magnitude
+    Duration::from_secs(env.unwrap_or(if tier == "thorough" { 14400 } else { 1800 }))
 }
 
 /// Wait for children with a wall-clock limit.  Returns per-child exit description; None = killed by the watchdog.
